@@ -409,3 +409,5 @@ Lemma forest_height_cons k r : mp4_forest_height (k :: r) = Z.max (mp4_height k)
 Proof. reflexivity. Qed.
 Lemma height_kids a ks : ma_kids a = Some ks -> mp4_height a = 1 + mp4_forest_height ks.
 Proof. destruct a as [n o l h [k|]]; cbn [ma_kids]; intros E; [inversion E; subst; apply height_node|discriminate]. Qed.
+Lemma add_max_le k a b c : k + Z.max a b <= c <-> k + a <= c /\ k + b <= c.
+Proof. lia. Qed.
